@@ -2,7 +2,9 @@
 
 Decides (shape): R1 type confinement, R2 writer confinement (call graph + touched
 fields), R3 prefix, R4 size is a function of the parameters only, R5 import
-confinement.  Not decided: leakage through the *values* of public material.
+confinement, R6 key generation stores values derived from secret-key storage into key material only masked
+(inter-procedural secret-value flow, sa/secretflow.py).  Not decided: that the masks and noise are statistically
+good (C07) and that the masked encodings hide the key computationally.
 """
 import re
 
@@ -54,6 +56,69 @@ def chain(parent, n):
     return " <- ".join(out)
 
 
+KEYGEN_ENTRY = "new_random_gate_bootstrapping_secret_keyset"
+
+
+def check_secret_values(chk, v, cloud_records):
+    """R6: values derived from secret-key storage reach the key material only masked (sa/secretflow.py)"""
+    from sa import secretflow, sym
+    vn = v.name
+    flow = secretflow.Flow(v, cloud_records)
+    entry = v.fn(KEYGEN_ENTRY)
+    reach = v.reachable([entry.usr])
+    keyed = []
+    for u in reach:
+        f = v.defs.get(u)
+        if f is None or not f.file.startswith("libtfhe"):
+            continue
+        if f.usr == entry.usr or any(record_names_in_type(p["t"], v.records) & set(secretflow.SECRET_RECORDS) for p in f.params):
+            keyed.append(f)
+    chk.vcount(vn, "R6.key_holding_functions", len(keyed))
+    for f in sorted(keyed, key=lambda f: f.name):
+        flow.analyse(f, frozenset())
+    seen_ref = set()
+    nflow = nbase = 0
+    for (usr, data_idx), res in sorted(flow.memo.items(), key=lambda kv: (v.defs[kv[0][0]].name, sorted(kv[0][1]))):
+        f = v.defs[usr]
+        if res["unknown"]:
+            chk.broken("C17.R6 %s: %s" % (f.name, res["unknown"][0]))
+        if data_idx:
+            nflow += 1
+        if res.get("base_mask"):
+            nbase += 1
+        mine = [r for r in res["refuted"] if r["fn"] == f.name]
+        names = [f.params[i]["n"] for i in sorted(data_idx)]
+        key = "%s%s emits secret-derived values only masked" % (f.name, (" (secret data in %s)" % ", ".join(names)) if names else "")
+        if not (data_idx or res.get("holds_key")):
+            continue
+        if mine:
+            for r in mine:
+                if (r["where"], r["slot"]) in seen_ref:
+                    continue
+                seen_ref.add((r["where"], r["slot"]))
+                hints = "; ".join(sorted({w for _, w in flow.log if "bounded evidence" not in w}))
+                chk.refuted("R6", key, where=r["where"], detail="%s = %s is written in clear via %s; %s%s" % (
+                    r["slot"], r["val"], " -> ".join(r["chain"]), r["detail"], (" [" + hints + "]") if hints else ""), variant=vn)
+        else:
+            what = []
+            if res["masks"]:
+                what.append("masks parameter(s) %s completely" % [f.params[k]["n"] for k in sorted(res["masks"])])
+            if res["n_clear"]:
+                what.append("%d clear write(s) of secret-derived data, %d handed to the caller, the rest justified by masking of the same object" % (
+                    res["n_clear"], len(res["clear"])))
+            if res["n_masked_calls"]:
+                what.append("%d call(s) to masking functions" % res["n_masked_calls"])
+            bounded = [w for fn_, w in flow.log if fn_ == f.name and "bounded evidence" in w]
+            if bounded:
+                chk.assumed("R6", key, where=f.where, detail="; ".join(what + bounded), variant=vn)
+            else:
+                chk.proved("R6", key, where=f.where, detail="; ".join(what) or "no secret-derived value leaves through non-secret storage", variant=vn)
+    for fn_, what in flow.log:
+        chk.note("R6 %s: %s" % (fn_, what))
+    chk.vcount(vn, "R6.secret_data_flows", nflow)
+    chk.vcount(vn, "R6.base_masking_primitives", nbase)
+
+
 def run(chk):
     prog = Program()
     chk.explanation = (
@@ -62,7 +127,10 @@ def run(chk):
         "dereferences a secret-key record, and the op sequence it emits reads only fields of public records; "
         "(R3) the secret export's op sequence is the cloud export's sequence followed only by key-content ops; "
         "(R4) the cloud sequence's byte count is a symbolic function of the parameters only; (R5) the cloud "
-        "importers reach no secret-key reader or constructor.  Decides the shape clause, not value-level leakage.")
+        "importers reach no secret-key reader or constructor; (R6) in the functions reachable from key generation a value "
+        "computed from secret-key storage reaches non-secret storage only as a product with the destination's fresh uniform "
+        "mask or as the plaintext of an object the key-holding function masks completely; a clear write that is masked only "
+        "by a later pass is compared slot by slot with that pass.")
     chk.trusted = ["clang 14 front end (type checking, callee resolution, record layouts)",
                    "cmake compile database of the 5 back-end targets x 2 builds"]
     chk.analysed["variants"] = 0
@@ -123,3 +191,5 @@ def run(chk):
                                 variant=vn, nontrivial=False)
         # R3 / R4 ------------------------------------------------------------
         ioseq.check_c17_sequences(chk, v, CLOUD_EXPORTS, SECRET_EXPORTS)
+        # R6 ------------------------------------------------------------------
+        check_secret_values(chk, v, seen)
